@@ -104,16 +104,17 @@ def check_exitcode_names(code: int, n: int) -> bool:
 
 def _mk_manager(log, n_pending, n_procs, kill_flag=False, alive=None):
     sl = FakeLock(log, "shutdown_lock")
+    mgmt = FakeLock(log, "mgmt")
     flags = FakeFlags(sl, kill_workers=kill_flag)
     futs = []
     pending = {}
     for i in range(n_pending):
         f = Future()
         f.add_done_callback(lambda fut, i=i: log.add("failed", i, flags.broken is not None or flags.shutdown))
+        f.add_done_callback(lambda fut: log.add("cb-locks", sl.held or mgmt.held))
         futs.append(f)
         pending[i] = _WorkItem(f, len, (), {})
     procs = {10 + i: FakeProcess(log, 10 + i, alive=(alive[i] if alive else True)) for i in range(n_procs)}
-    mgmt = FakeLock(log, "mgmt")
     cq = FakeCallQueue(log, 5)
     fake = NS(executor_flags=flags, pending_work_items=pending, processes=procs, shutdown_lock=sl,
               processes_management_lock=mgmt, call_queue=cq, thread_wakeup=FakeWakeup(log, sl),
@@ -175,8 +176,8 @@ def check_terminate_broken(n_pending: int, n_procs: int, lookup_fails: bool) -> 
     for p in plist:  # every remaining worker killed exactly once and reaped
         if log.count("kill-tree", p.pid) != 1 or p.alive:
             return False
-    if not _reader_released(log):
-        return False
+    if not _reader_released(log) or log.count("cb-locks", True):
+        return False  # (user done-callbacks never run while an internal lock is held)
     # internals joined: queues and wakeup closed (wakeup under the shutdown lock), no lock left held
     return (log.count("cq-close") == 1 and log.count("cq-join-thread") == 1 and log.count("rq-close") == 1
             and log.count("wakeup-close") == 1 and not mgmt.held and not fake.shutdown_lock.held
@@ -208,6 +209,8 @@ def check_flag_shutting_down(n_pending: int, n_procs: int, kill: bool, done_befo
     if not kill:  # graceful: nothing is failed, nobody is killed
         return all(not f.done() for f in futs) and len(fake.pending_work_items) == n_pending and \
             len(procs) == n_procs and log.count("kill-tree") == 0
+    if log.count("cb-locks", True):
+        return False
     for f in futs:
         if type(f.exception(timeout=0)) is not ShutdownExecutorError:
             return False
@@ -382,3 +385,249 @@ def check_shutdown_workers_small_queue(announced: List[bool], cap: int) -> bool:
     finally:
         pe.sleep = saved
     return all(not p._worker_exit_lock.held for p in plist) and not mgmt.held
+
+
+class _ContendedLock(FakeLock):
+    """A lock that another thread may hold when the code under test arrives: a blocking acquire then waits for the
+    owner (who releases eventually: logged as 'waited'), a non-blocking / timed one fails."""
+
+    def __init__(self, log, name, held_by_other):
+        super().__init__(log, name)
+        self.other = held_by_other
+
+    def acquire(self, block=True, timeout=None, blocking=None):
+        if blocking is not None:
+            block = blocking
+        if self.other:
+            if not block or timeout is not None:
+                self.log.add("acquire-fail", self.name)
+                return False
+            self.log.add("waited", self.name)
+            self.other = False
+        return super().acquire(block, timeout)
+
+
+class _Owner:
+    pass
+
+
+def _manager_for(owner):
+    from crosshair.tracers import NoTracing, is_tracing
+    if is_tracing():
+        with NoTracing():
+            return MT(owner)
+    return MT(owner)
+
+
+def check_gc_wakeup(held_by_other: bool, mp_gone: bool) -> bool:
+    """
+    post: _
+    """
+    # C05 "shutdown via garbage collection of the executor": the weakref callback installed by the real
+    # _ExecutorManagerThread.__init__ is the only signal that tells the manager thread that its executor was
+    # collected; it must wake the thread up (under the shutdown lock) even if another thread (submit in a callback,
+    # the feeder's error handler, shutdown) holds that lock at the time
+    log = Log()
+    sl = _ContendedLock(log, "shutdown_lock", bool(held_by_other))
+    owner = _Owner()
+    owner._executor_manager_thread_wakeup = FakeWakeup(log, sl)
+    owner._shutdown_lock = sl
+    owner._flags = FakeFlags(sl)
+    owner._processes, owner._pending_work_items, owner._running_work_items = {}, {}, []
+    owner._call_queue, owner._result_queue, owner._work_ids = FakeCallQueue(log, 3), NS(), NS()
+    owner._processes_management_lock = FakeLock(log, "mgmt")
+    try:
+        mt = _manager_for(owner)
+    except ImportError:
+        mt = MT(owner)
+    cb = mt.executor_reference.__callback__
+    if cb is None:
+        return False
+    saved = pe.mp
+    if mp_gone:
+        pe.mp = None
+    try:
+        cb(None)
+    finally:
+        pe.mp = saved
+    return log.count("wakeup", True) == 1 and not sl.held and log.count("acquire-fail") == 0
+
+
+def check_flags_step(shutdown0: bool, kill0: bool, kw: int, broken0: bool) -> bool:
+    """
+    pre: 0 <= kw <= 2
+    post: _
+    """
+    # the real _ExecutorFlags: a forced shutdown request is recorded whatever was requested before (C06: a
+    # shutdown(kill_workers=True) issued after a shutdown(wait=False) still kills), plain requests leave it alone
+    kw = _conc(kw, 2)
+    log = Log()
+    sl = FakeLock(log, "shutdown_lock")
+    fl = pe._ExecutorFlags(sl)
+    fl.shutdown, fl.kill_workers = bool(shutdown0), bool(kill0)
+    marker = TerminatedWorkerError("b") if broken0 else None
+    fl.broken = marker
+    arg = {0: None, 1: False, 2: True}[kw]
+    fl.flag_as_shutting_down(arg)
+    if not fl.shutdown or fl.broken is not marker or sl.held:
+        return False
+    if arg is None:
+        return fl.kill_workers == bool(kill0)
+    return fl.kill_workers is arg and log.count("acquire", "shutdown_lock") == 1
+
+
+def _untraced(fn):
+    try:
+        from crosshair.tracers import NoTracing, is_tracing
+    except ImportError:
+        return fn()
+    if not is_tracing():
+        return fn()
+    with NoTracing():
+        return fn()
+
+
+def check_exit_registry(n: int, how: int, at_exit: bool) -> bool:
+    """
+    pre: 1 <= n <= 3 and 0 <= how <= 2
+    post: _
+    """
+    # C20 / C05: the interpreter-exit registry (_threads_wakeups, filled by the real
+    # _start_executor_manager_thread) must not keep finished executors alive: whatever way an executor is
+    # released - shutdown(wait=False), plain drop, shutdown(wait=True) - its entry is gone once the manager thread
+    # object is unreachable, so that the queues / locks (named semaphores) it references can be collected.
+    # With at_exit, the real _python_exit is run while the entries are alive: each manager is woken under its own
+    # shutdown lock, then joined.
+    n, how = _conc(n, 3), _conc(how, 2)
+    at_exit = bool(at_exit)
+    return _untraced(lambda: _exit_registry(n, how, at_exit))
+
+
+def _exit_registry(n, how, at_exit):
+    import gc
+    import weakref
+    from .c08_pool_size import _mk_executor
+    log = Log()
+    reg = weakref.WeakKeyDictionary()
+    saved = (pe._threads_wakeups, pe.process_pool_executor_at_exit, MT.start, MT.join, pe._global_shutdown)
+    pe._threads_wakeups = reg
+    pe.process_pool_executor_at_exit = "registered"   # do not install a real atexit hook from the harness
+    MT.start = lambda self: log.add("start")
+    MT.join = lambda self, timeout=None: log.add("join", self.name)
+    try:
+        keep = []
+        for i in range(n):
+            ex, ctx, lock = _mk_executor(log, 0, 1)
+            sl = ex._shutdown_lock
+            ex._executor_manager_thread_wakeup = NS(
+                wakeup=(lambda sl=sl, i=i: log.add("wakeup", i, sl.locked())), close=lambda: None, _closed=False)
+            ex._call_queue = FakeCallQueue(log, 3)
+            pe.ProcessPoolExecutor._start_executor_manager_thread(ex)
+            if len(reg) != len(keep) + 1:
+                return False
+            keep.append(ex)
+        if at_exit:
+            del log[:]
+            pe._python_exit()
+            for i in range(n):
+                if log.count("wakeup", i, True) != 1:
+                    return False  # every live manager is woken, while its shutdown lock is held
+            if log.count("join") != n:
+                return False
+            wake_idx = [j for j, e in enumerate(log) if e[0] == "wakeup"]
+            join_idx = [j for j, e in enumerate(log) if e[0] == "join"]
+            if max(wake_idx) > min(join_idx):
+                return False  # all are woken before the first join (a join before the wake-up may wait for ever)
+        while keep:
+            ex = keep.pop()
+            if how == 0:
+                pe.ProcessPoolExecutor.shutdown(ex, wait=False)
+            elif how == 2:
+                pe.ProcessPoolExecutor.shutdown(ex, wait=True)
+            del ex
+        gc.collect()
+        return len(reg) == 0
+    finally:
+        pe._threads_wakeups, pe.process_pool_executor_at_exit, MT.start, MT.join, pe._global_shutdown = saved
+
+
+class _LoopTooLong(Exception):
+    pass
+
+
+def check_run_loop(events: List[int], shut_at: int, pending_left: List[int]) -> bool:
+    """
+    pre: 1 <= len(events) <= 4 and len(pending_left) == len(events)
+    pre: all(0 <= e <= 2 for e in events) and all(0 <= p <= 1 for p in pending_left)
+    pre: 0 <= shut_at <= 4
+    post: _
+    """
+    # the real _ExecutorManagerThread.run against a scripted environment: turn i of the loop sees event
+    # events[i] (0 wake-up only, 1 a result item, 2 broken pool); from turn `shut_at` on is_shutting_down() is true;
+    # pending_left[i] says whether work items remain after turn i.  Protocol of one turn (what C01/C02/C05 rest on):
+    # dispatch first, then wait; broken -> terminate_broken(bpe) with the very error and stop; a result is processed
+    # before the shutdown test; shutting down -> flag every turn, and leave through join_executor_internals exactly
+    # when nothing is pending - never before, never later.
+    events = [_conc(e, 2) for e in events]
+    pending_left = [_conc(p, 1) for p in pending_left]
+    shut_at = _conc(shut_at, 4)
+    n = len(events)
+    log = Log()
+    turn = [0]
+    bpe = TerminatedWorkerError("x")
+
+    class Pending:
+        def __bool__(self):
+            return bool(pending_left[turn[0] - 1])
+
+        def __len__(self):
+            return pending_left[turn[0] - 1]
+
+    def wait():
+        i = turn[0]
+        if i >= n:
+            raise _LoopTooLong()
+        turn[0] += 1
+        log.add("wait", i)
+        e = events[i]
+        if e == 2:
+            return None, True, bpe
+        if e == 1:
+            return ("item", i), False, None
+        return None, False, None
+
+    fake = NS(pending_work_items=Pending(),
+              add_call_item_to_queue=lambda: log.add("dispatch", turn[0]),
+              wait_result_broken_or_wakeup=wait,
+              terminate_broken=lambda b: log.add("terminate", b is bpe),
+              process_result_item=lambda it: log.add("process", it[1]),
+              is_shutting_down=lambda: (log.add("shutq", turn[0] - 1), turn[0] - 1 >= shut_at)[1],
+              flag_executor_shutting_down=lambda: log.add("flag", turn[0] - 1),
+              join_executor_internals=lambda: log.add("join-internals", turn[0] - 1))
+    try:
+        MT.run(fake)
+        ended = True
+    except _LoopTooLong:
+        ended = False
+    # reference behaviour
+    want = []
+    stop = None
+    for i in range(n):
+        want.append(("dispatch", i))
+        want.append(("wait", i))
+        if events[i] == 2:
+            want.append(("terminate", True))
+            stop = i
+            break
+        if events[i] == 1:
+            want.append(("process", i))
+        want.append(("shutq", i))
+        if i >= shut_at:
+            want.append(("flag", i))
+            if not pending_left[i]:
+                want.append(("join-internals", i))
+                stop = i
+                break
+    if stop is None:
+        want.append(("dispatch", n))  # the loop goes on: one more dispatch, then the script ends
+    return list(log) == want and ended == (stop is not None)
